@@ -116,6 +116,10 @@ def _mutated(fn, name):
                     continue
                 if isinstance(n, ast.comprehension) and n.iter is ch:
                     continue
+                if isinstance(n, ast.Compare) and ch in n.comparators and \
+                        all(isinstance(o, (ast.In, ast.NotIn))
+                            for o in n.ops):
+                    continue          # membership test
                 return True
     return False
 
@@ -1222,4 +1226,152 @@ def fold_class_constants(fn, cls, kinds=(bytes,)):
                     return ast.copy_location(acopy(v), n)
             return self.generic_visit(n)
     X().visit(fn)
+    return cnt[0]
+
+
+# ---------------------------------------------------------------------------
+def expand_quantifiers(fn):
+    """Quantifier spellings of a search loop written as the loop:
+
+        S = [E(x) for x in ITER]                (S only read by the forms below)
+        if any(P(t) for t in S): <raise/return>  ->  for x in ITER:
+                                                         t = E(x)
+                                                         if P(t): <raise/return>
+        if not all(P(t) for t in S): ...          (the same with `not P`)
+        flag = A or (C in S)                      ->  flag = A
+        flag = A or any(P(t) for t in S)              for x in ITER:
+                                                         t = E(x)
+                                                         if t == C: flag = True
+    (also directly over ITER, without the intermediate list).  The tests are
+    assumed free of side effects, as in the loop they abbreviate.  Returns
+    the number of rewrites (fn modified in place)."""
+    defs = _single_defs(fn)
+    cnt = [0]
+
+    def source(it):
+        """(loop target ast, iterable ast, [binding stmts for t]) for
+        iterating `it` with element name t given later."""
+        if isinstance(it, ast.Name) and it.id in defs and isinstance(
+                defs[it.id], (ast.ListComp, ast.GeneratorExp)) and len(
+                    defs[it.id].generators) == 1 and not defs[it.id] \
+                .generators[0].ifs and not _mutated(fn, it.id):
+            c = defs[it.id]
+            g = c.generators[0]
+            return g.target, g.iter, c.elt
+        return None, it, None
+
+    def loop_for(gen_target, gen_iter, cond, body):
+        tgt, it, elt = source(gen_iter)
+        stmts = []
+        if elt is not None:
+            # for x in ITER: t = E(x)
+            stmts.append(ast.Assign([acopy(gen_target)], acopy(elt)))
+            loop_t = acopy(tgt)
+        else:
+            loop_t = acopy(gen_target)
+        for n in ast.walk(loop_t):
+            if isinstance(n, ast.Name):
+                n.ctx = ast.Store()
+        stmts.append(ast.If(cond, body, []))
+        return ast.For(loop_t, acopy(it), stmts, [])
+
+    def anyall(e):
+        """(generator, predicate with polarity applied) for any(..) /
+        not all(..); None otherwise."""
+        neg = False
+        if isinstance(e, ast.UnaryOp) and isinstance(e.op, ast.Not):
+            e, neg = e.operand, True
+        if isinstance(e, ast.Call) and isinstance(e.func, ast.Name) and \
+                e.func.id in ("any", "all") and len(e.args) == 1 and \
+                isinstance(e.args[0], (ast.GeneratorExp, ast.ListComp)) and \
+                len(e.args[0].generators) == 1 and \
+                not e.args[0].generators[0].ifs:
+            is_any = e.func.id == "any"
+            if is_any == neg:
+                return None      # `not any` / `all`: a for-all, not a search
+            g = e.args[0].generators[0]
+            p = e.args[0].elt
+            if not is_any:
+                p = ast.UnaryOp(ast.Not(), p)
+            return g, p
+        return None
+
+    def terminates(body):
+        return bool(body) and isinstance(body[-1], (ast.Raise, ast.Return))
+
+    def block(stmts):
+        out = []
+        for s in stmts:
+            for fld in ("body", "orelse", "finalbody"):
+                sub = getattr(s, fld, None)
+                if isinstance(sub, list) and sub and isinstance(
+                        sub[0], ast.stmt) and not isinstance(
+                            s, (ast.FunctionDef, ast.AsyncFunctionDef,
+                                ast.ClassDef)):
+                    setattr(s, fld, block(sub))
+            if isinstance(s, ast.If) and not s.orelse and terminates(s.body):
+                q = anyall(s.test)
+                if q is not None:
+                    g, p = q
+                    loop = loop_for(g.target, g.iter, p, s.body)
+                    ast.copy_location(loop, s)
+                    ast.fix_missing_locations(loop)
+                    out.append(loop)
+                    cnt[0] += 1
+                    continue
+            if isinstance(s, ast.Assign) and len(s.targets) == 1 and \
+                    isinstance(s.targets[0], ast.Name) and isinstance(
+                        s.value, ast.BoolOp) and isinstance(
+                            s.value.op, ast.Or) and len(s.value.values) == 2:
+                a, b = s.value.values
+                flag = s.targets[0].id
+                q = anyall(b)
+                loop = None
+                setf = [ast.Assign([ast.Name(flag, ast.Store())],
+                                   ast.Constant(True))]
+                if q is not None:
+                    g, p = q
+                    loop = loop_for(g.target, g.iter, p, setf)
+                elif isinstance(b, ast.Compare) and len(b.ops) == 1 and \
+                        isinstance(b.ops[0], ast.In) and _is_atomic(b.left):
+                    t = ast.Name("__elt", ast.Store())
+                    loop = loop_for(t, b.comparators[0], ast.Compare(
+                        ast.Name("__elt", ast.Load()), [ast.Eq()],
+                        [acopy(b.left)]), setf)
+                    if source(b.comparators[0])[2] is None and not isinstance(
+                            b.comparators[0], ast.Name):
+                        loop = None
+                if loop is not None:
+                    first = ast.Assign([ast.Name(flag, ast.Store())], a)
+                    for x in (first, loop):
+                        ast.copy_location(x, s)
+                        ast.fix_missing_locations(x)
+                    out += [first, loop]
+                    cnt[0] += 1
+                    continue
+            out.append(s)
+        return out
+    fn.body = block(fn.body)
+    if cnt[0]:
+        # comprehension lists that are no longer read
+        used = {n.id for n in ast.walk(fn) if isinstance(n, ast.Name) and
+                isinstance(n.ctx, ast.Load)}
+
+        def prune(stmts):
+            res = []
+            for s in stmts:
+                for fld in ("body", "orelse", "finalbody"):
+                    sub = getattr(s, fld, None)
+                    if isinstance(sub, list) and sub and isinstance(
+                            sub[0], ast.stmt):
+                        setattr(s, fld, prune(sub) or [ast.Pass()])
+                if isinstance(s, ast.Assign) and len(s.targets) == 1 and \
+                        isinstance(s.targets[0], ast.Name) and \
+                        s.targets[0].id not in used and isinstance(
+                            s.value, (ast.ListComp, ast.GeneratorExp)):
+                    continue
+                res.append(s)
+            return res
+        fn.body = prune(fn.body)
+        ast.fix_missing_locations(fn)
     return cnt[0]
